@@ -129,6 +129,14 @@ def fam_timeout(seed, i):
     sc["idle_only"] = rng.random() < 0.7
     t = rng.choice([0, 2, 3, 3, 4])
     cfg = {"cap": rng.choice([-1, -1, 1, 2]), "tmo": t, "failto": t > 0 and rng.random() < 0.3, "pscr": [Y] * rng.choice([0, 1]), "owning": rng.random() < 0.3}
+    # callbacks are not handlers: however long started / stopped take, the handler timeout does not apply to them
+    r = rng.random()
+    if r < 0.25:
+        cfg["sscr"] = [[eff("sleep", rng.randint(1, 6))] + [Y] * rng.choice([0, 1])]
+    elif r < 0.35:
+        cfg["sscr"] = [[Y, eff("sleep", rng.randint(3, 6))]]
+    if rng.random() < 0.25:
+        cfg["pscr"] = [eff("sleep", rng.randint(1, 6))]
     ncl = rng.randint(1, 3)
     names = [f"c{k+1}" for k in range(ncl)]
     kinds = {c: rng.choice(["addr", "addr", "sender", "caller"]) for c in names}
